@@ -10,7 +10,7 @@ Section FB.
   Notation pm := (fun (_ : Z) (_ : item) => true).
   Notation tf := (test_filter pm fuel_of).
 
-  Definition fb_elem (r : trange) : list elem := [ECompFilter NCal [ECompFilter NEvent [ETimeRange r]]].
+  Definition fb_elem (r : trange) : list elem := [ECompFilter (U NCal) [ECompFilter (U NEvent) [ETimeRange r]]].
 
   Lemma fb_ranges_ok : forall r, range_ok r -> ranges_ok (fb_filter r).
   Proof.
@@ -20,8 +20,8 @@ Section FB.
 
   Lemma tf_fb_total : forall it r, item_ok fuel_of it -> range_ok r -> exists b, tf it (fb_elem r) = Some b.
   Proof.
-    intros it r Hok Hr. unfold fb_elem, test_filter, comp_match0, comp_match_body. cbn [cname_eqb negb cm_loop].
-    unfold comp_match1, comp_match_body. destruct (negb (cname_eqb NEvent (it_comp it))); [eexists; reflexivity|].
+    intros it r Hok Hr. unfold fb_elem, test_filter, comp_match0, comp_match_body. cbn [upper U rn_upper cname_eqb negb cm_loop].
+    unfold comp_match1, comp_match_body. cbn [upper U rn_upper]. destruct (negb (cname_eqb NEvent (it_comp it))); [eexists; reflexivity|].
     cbn [is3 negb cm_loop first_child_range].
     destruct (trm_item fuel_of it r Hok Hr) as (b & Hb & _). rewrite Hb. cbn [obind]. destruct b; eexists; reflexivity.
   Qed.
